@@ -172,7 +172,8 @@ fn tsel(u: f64) -> f64 {
     [2020.0, 0.0, 1999.5, 2030.25, -0.0, 1.0, 2015.123, -7.5][split(u, 8).0]
 }
 fn tsel_nonneg_zero(u: f64) -> f64 {
-    [2020.0, 0.0, 1999.5, 2030.25, 2000.0, 1.0, 2015.123, 1987.5][split(u, 8).0]
+    // 2010.0 is exactly the t_epoch of every `deformation t_epoch=2010` configuration (two slots in eight)
+    [2020.0, 0.0, 1999.5, 2030.25, 2010.0, 1.0, 2010.0, 1987.5][split(u, 8).0]
 }
 fn sphere_direct(lon1: f64, lat1: f64, az: f64, d: f64) -> (f64, f64) {
     let s = (lat1.sin() * d.cos() + lat1.cos() * d.sin() * az.cos()).clamp(-1.0, 1.0);
@@ -503,7 +504,9 @@ fn make_cfg(fam: &str, v: &[u16; 4], vf: &[f64; 4]) -> OpCfg {
         "deformation" => {
             let null = split(vf[0], 2).0 == 1;
             let raw = split(split(vf[0], 2).1, 4).0 == 0;
-            let epoch = v[0] % 2 == 0;
+            // duration from the tuple epoch (t_epoch=2010), a fixed duration, or a fixed duration of exactly zero
+            let mode = v[0] % 3;
+            let epoch = mode == 0;
             tag = format!("{}{}{}", if epoch { "epoch" } else { "dt" }, if raw { " raw" } else { "" }, if null { " null" } else { "" });
             let g = make_grid("c10.deformation", 3, 0, v, vf);
             // one configuration in five: only optional grids, none of them available
@@ -518,7 +521,7 @@ fn make_cfg(fam: &str, v: &[u16; 4], vf: &[f64; 4]) -> OpCfg {
             let d = format!(
                 "deformation{} {} grids={list}{} ellps=GRS80",
                 if raw { " raw" } else { "" },
-                if epoch { "t_epoch=2010" } else { "dt=2.5" },
+                ["t_epoch=2010", "dt=2.5", "dt=0"][mode as usize],
                 if null { ",@null" } else { "" }
             );
             if nogrid {
@@ -1084,7 +1087,10 @@ fn gen_tup(cfg: &OpCfg, fwd: bool, sel: u8, u: &[f64; 6]) -> (P4, Cls, bool) {
         }
         "helmert" => {
             if interior {
-                (p4(lerp(u[0], -1.0e7, 1.0e7), lerp(u[1], -1.0e7, 1.0e7), lerp(u[2], -1.0e7, 1.0e7), lerp(u[5], 1990.0, 2030.0)), Cls::Interior, false)
+                // one epoch in four is exactly a t_epoch / t_obs of the catalogue's dynamic configurations
+                let (k, r) = split(u[5], 4);
+                let t = if k == 0 { [1988.0, 2010.0, 2020.0][split(r, 3).0] } else { lerp(u[5], 1990.0, 2030.0) };
+                (p4(lerp(u[0], -1.0e7, 1.0e7), lerp(u[1], -1.0e7, 1.0e7), lerp(u[2], -1.0e7, 1.0e7), t), Cls::Interior, false)
             } else {
                 (any_p4(u), Cls::Any, false)
             }
@@ -1389,8 +1395,99 @@ const STACK_INV: [&str; 6] = [
     "stack swap | noop",
 ];
 
+/// One stack instruction together with the number of stack elements it needs.
+#[derive(Clone, Debug)]
+enum SIns {
+    Roll(usize, i64),
+    Unroll(usize, i64),
+    Pop(Vec<u8>),
+    Flip(Vec<u8>),
+    LegacyPop(u8),
+    Swap,
+}
+
+impl SIns {
+    fn need(&self) -> usize {
+        match self {
+            SIns::Roll(m, _) | SIns::Unroll(m, _) => *m,
+            SIns::Pop(l) | SIns::Flip(l) => l.len(),
+            SIns::LegacyPop(m) => m.count_ones() as usize,
+            SIns::Swap => 2,
+        }
+    }
+    fn list(l: &[u8]) -> String {
+        l.iter().map(|i| i.to_string()).collect::<Vec<_>>().join(",")
+    }
+    fn flags(m: u8) -> String {
+        (0..4).filter(|i| m & (1 << i) != 0).map(|i| format!(" v_{}", i + 1)).collect()
+    }
+    /// the step text which, executed in direction `fwd`, performs this instruction
+    fn text(&self, fwd: bool) -> String {
+        match (self, fwd) {
+            (SIns::Roll(m, n), true) | (SIns::Unroll(m, n), false) => format!("stack roll={m},{n}"),
+            (SIns::Unroll(m, n), true) | (SIns::Roll(m, n), false) => format!("stack unroll={m},{n}"),
+            (SIns::Pop(l), true) => format!("stack pop={}", Self::list(l)),
+            (SIns::Pop(l), false) => format!("stack push={}", Self::list(&l.iter().rev().cloned().collect::<Vec<_>>())),
+            (SIns::Flip(l), _) => format!("stack flip={}", Self::list(l)),
+            (SIns::LegacyPop(m), true) => format!("pop{}", Self::flags(*m)),
+            (SIns::LegacyPop(m), false) => format!("push{}", Self::flags(*m)),
+            (SIns::Swap, _) => "stack swap".to_string(),
+        }
+    }
+}
+
+/// Every stack instruction at every argument (roll/unroll for all |n| < m <= 6, incl. n = 0 and +-(m-1);
+/// pop/flip lists of length 1..4 over 1..4; the 15 legacy pop subsets; swap).
+fn all_stack_instructions() -> Vec<SIns> {
+    let mut v = vec![];
+    for m in 1..=6usize {
+        for n in -(m as i64 - 1)..=(m as i64 - 1) {
+            v.push(SIns::Roll(m, n));
+            v.push(SIns::Unroll(m, n));
+        }
+    }
+    for len in 1..=4u32 {
+        for k in 0..4usize.pow(len) {
+            let l: Vec<u8> = (0..len).map(|j| ((k / 4usize.pow(j)) % 4) as u8 + 1).collect();
+            v.push(SIns::Pop(l.clone()));
+            v.push(SIns::Flip(l));
+        }
+    }
+    for m in 1..16u8 {
+        v.push(SIns::LegacyPop(m));
+    }
+    v.push(SIns::Swap);
+    v
+}
+
+/// A program that executes, in direction `fwd`: push `depth` elements (fewer than `ins` needs), then `ins`,
+/// then optionally a NaN-preserving step.
+fn underflow_program(ins: &SIns, depth: usize, fwd: bool, tail: u8) -> Vec<String> {
+    let mut exec: Vec<(String, String)> = vec![]; // (text when applied forward, text when applied inversely)
+    let idx: Vec<u8> = (0..depth).map(|i| (i % 4) as u8 + 1).collect();
+    for chunk in idx.chunks(4) {
+        let l = chunk.to_vec();
+        let rev: Vec<u8> = l.iter().rev().cloned().collect();
+        exec.push((format!("stack push={}", SIns::list(&l)), format!("stack pop={}", SIns::list(&rev))));
+    }
+    if exec.is_empty() {
+        exec.push(("noop".into(), "noop".into()));
+    }
+    exec.push((ins.text(true), ins.text(false)));
+    match tail % 3 {
+        1 => exec.push(("addone".into(), "addone inv".into())),
+        2 => exec.push(("helmert x=1 y=2 z=3".into(), "helmert x=1 y=2 z=3 inv".into())),
+        _ => {}
+    }
+    if fwd {
+        exec.into_iter().map(|e| e.0).collect()
+    } else {
+        exec.into_iter().rev().map(|e| e.1).collect()
+    }
+}
+
 fn build_pipe(tpl: u16, v: &[u16; 4], vf: &[f64; 4], fwd: bool, raw: &[RawTup]) -> PipeCase {
-    let k = pick(tpl, 8);
+    let k = pick(tpl, 10);
     let mask = |p: P4, m: u8| -> P4 {
         let m = if m < 20 { 0 } else { (m - 16) & 15 };
         let mut q = p;
@@ -1491,6 +1588,16 @@ fn build_pipe(tpl: u16, v: &[u16; 4], vf: &[f64; 4], fwd: bool, raw: &[RawTup]) 
             };
             let tups = raw.iter().map(|(_, u, m)| mask(p4(lerp(u[0], -90.0, 90.0), lerp(u[1], -90.0, 90.0), zsel(u[4]), tsel(u[5])), *m)).collect();
             ("one-way-step", steps, tups)
+        }
+        8 | 9 => {
+            // every instruction at every argument on a stack one element too shallow, or empty
+            underflow = true;
+            let all = all_stack_instructions();
+            let ins = &all[pick(v[0], all.len())];
+            let depth = if v[1] % 2 == 0 { ins.need() - 1 } else { 0 };
+            let steps = underflow_program(ins, depth, fwd, (v[2] % 3) as u8);
+            let tups = raw.iter().map(|(_, u, m)| mask(any_p4(u), *m)).collect();
+            ("stack-underflow", steps, tups)
         }
         _ => {
             underflow = true;
@@ -1786,6 +1893,7 @@ fn main() {
     run.assume("no infinities are generated (IEEE hypot(inf, NaN) = inf would make the NaN clause unsound); an epoch of -0.0 is not generated for `deformation` (it adds +0.0 to the fourth element, so -0.0 would come back as +0.0: pedantic, excluded by construction)");
     run.assume("dependency table transcribed from the sources; left out: deflection with @null and a NaN position (undocumented), deformation with @null (pass-through: identity only), the epoch dependency of deformation with @null; geodesic/gravity/curvature/deflection (look-up helpers) are exempt from the untouched-axes clause; deformation `raw` replaces the fourth element by design");
     run.assume("grid lists consisting only of unavailable optional (@-prefixed) grids instantiate with an empty list (documented: optional grids do not block instantiation); every point is then outside coverage: without @null it must be NaN-marked and not counted, with @null passed through and counted (gridshift both directions, deflection, deformation both directions; one configuration in five)");
+    run.assume("time dependent operators: one tuple epoch in four is exactly the t_epoch (deformation: 2010; helmert: 1988, 2010, and t_obs 2020) of the catalogue's configurations, in every coverage class; deformation is also instantiated with dt=0 exactly; a zero duration is an ordinary in-domain value (result = input, counted) inside coverage and changes nothing about the outside-coverage clause");
     run.assume("stand-alone push/pop/stack steps act only inside a pipeline: reporting 0 with the data untouched is accepted for them; pipelines containing a one-way operator are only checked for count = min over the steps (data legitimately stays finite)");
     run.assume("origin-shift: the unshifted input is recomputed with the subtraction the operator itself performs (x - x_0, y - y_0, lon - lon_0), so both operators see bit-identical reduced values; points where the unshifted operator's outcome changes within 1e-9 relative (+1 mm) / 1e-9 rad are excluded (counter excluded_unstable_neighbourhood); only the pattern (count, which elements are NaN) is compared, values belong to C13");
     run.assume("pipeline count is compared with the minimum over the counts of the same steps instantiated stand-alone and applied one after the other to the same data (omit_* modifiers and macros belong to C03/C04)");
@@ -1851,6 +1959,58 @@ fn main() {
         pipe_strategy,
         check_pipe,
     );
+
+    // 4b. every stack instruction at every argument, one element short and on an empty stack
+    {
+        let all = all_stack_instructions();
+        let ni = all.len();
+        run.enumerate(
+            "stack-underflow-all",
+            "every stack instruction (roll/unroll for all |n| < m <= 6 incl. n = 0 and +-(m-1), pop/flip lists of length 1..4 over 1..4, 15 legacy pop subsets, swap) x stack depth {one too shallow, empty} x both directions x {no tail, addone, helmert}: must report 0 and NaN-mark every tuple",
+            ni * 2 * 2 * 3,
+            move |i| {
+                let ins = &all[i % ni];
+                let r = i / ni;
+                let depth = if r % 2 == 0 { ins.need() - 1 } else { 0 };
+                let fwd = (r / 2) % 2 == 0;
+                let tail = (r / 4) as u8;
+                PipeCase {
+                    kind: "stack-underflow".into(),
+                    steps: underflow_program(ins, depth, fwd, tail),
+                    grid: None,
+                    fwd,
+                    tups: vec![p4(1.0, 2.0, 3.0, 4.0), p4(-5.5, 6.25, 7.0, 2020.0)],
+                    underflow: true,
+                }
+            },
+            check_pipe,
+        );
+    }
+
+    // 4c. tuple epochs exactly equal to t_epoch (and dt = 0 exactly), in every coverage class
+    {
+        const SELS: [u8; 5] = [0, 2, 4, 6, 8]; // inside, inside, outside, border, anywhere
+        let total = 30 * 2 * SELS.len() * 3;
+        run.enumerate(
+            "epoch-equals-t_epoch",
+            "deformation (30 configurations: t_epoch=2010 / dt=2.5 / dt=0 x raw x @null x grid / no grid) x both directions x {inside, outside coverage, border, anywhere} x 3 points, the tuple epoch being exactly 2010.0 = t_epoch: same clauses as everywhere (outside without @null => NaN, not counted)",
+            total,
+            move |i| {
+                let var = i % 30;
+                let r = i / 30;
+                let fwd = r % 2 == 0;
+                let sel = SELS[(r / 2) % SELS.len()];
+                let pt = r / (2 * SELS.len());
+                let v = [(var * 2185 + 1) as u16, (var * 13107 + 7) as u16, (var * 21845 + 3) as u16, (var * 9362 + 11) as u16];
+                let vf = [(var % 8) as f64 / 8.0 + 0.03, 0.37, 0.61, 0.29];
+                let u = [[0.31, 0.62, 0.45, 0.55, 0.27, 0.55], [0.83, 0.17, 0.71, 0.93, 0.52, 0.8], [0.5, 0.5, 0.02, 0.01, 0.9, 0.55]][pt];
+                let mut c = build_case("deformation", &v, &vf, fwd, &[(sel, u, 0)]);
+                c.tups[0].p[3] = F(2010.0);
+                c
+            },
+            check,
+        );
+    }
 
     // 5. the failure pattern moves with the false origin / central meridian
     let n = run.scale(20_000, 300_000);
